@@ -45,6 +45,7 @@ impl Decode for SessionId {
 
 impl From<StreamId> for SessionId {
     fn from(value: StreamId) -> Self {
-        Self(value.index())
+        // The session id is the id of the CONNECT stream, not its index
+        Self(value.into_inner())
     }
 }
